@@ -41,9 +41,10 @@ extern "C" void asl_verif_point(int kind, const volatile void* obj)
 	if (!js || kind < 10)
 		return;
 	int spin_ms = g_spin_ms.load(std::memory_order_relaxed);
-	if (spin_ms > 0 && (kind == 22 || kind == 12)) {
+	if (spin_ms > 0 && (kind == 22 || kind == 12 || kind == 11)) {
 		// busy delay (not a cancellation point, unlike usleep) after the accept loop cleared its running flag / before a
-		// thread stores its finished flag: widens the window between "stop(true) may return" and "the thread is really gone"
+		// thread stores its finished flag: widens the window between "stop(true) may return" and "the thread is really gone";
+		// at thread entry (11): widens the window between "handler thread created" and "handler thread runs its first statement"
 		uint64_t hh = (js ^ (uint64_t)kind * 0x9e3779b97f4a7c15ULL) * 0xbf58476d1ce4e5b9ULL;
 		double until = vf::now() + 1e-3 * (double)(hh % (uint64_t)(spin_ms + 1));
 		while (vf::now() < until) {
@@ -114,7 +115,15 @@ public:
 			rec->exits++;
 		}
 	}
-	int port() { return _sockets.length() > 0 ? _sockets[0].localAddress().port() : 0; }
+	int port()
+	{
+		for (int i = 0; i < _sockets.length(); i++)
+			if (_sockets[i].localAddress().port() > 0)
+				return _sockets[i].localAddress().port();
+		return 0;
+	}
+	int nendpoints() { return _sockets.length(); }
+	int fd(int i) { return _sockets[i].handle(); }
 };
 
 struct ClientResult {
@@ -234,6 +243,7 @@ struct Hist {
 	bool start_nonblocking = true;
 	int spin_ms = 0;            // busy delay injected at the loop-stop / finished-flag points
 	bool destroy_at_once = false; // destroy the server as soon as stop(true) has returned
+	int fdorder = 0;              // two endpoints: bit0 the endpoint bound second gets the LOWER descriptor, bit1 the Unix path is bound first
 };
 
 static int g_hist_no = 0;
@@ -252,11 +262,23 @@ static void run_history(const Hist& h)
 	std::string path = dir + "/s" + std::to_string(g_hist_no++) + ".sock";
 	unlink(path.c_str());
 	bool tcp = (h.kind & 1) || !(h.kind & 2), ux = (h.kind & 2) != 0;
-	if (tcp)
-		VF_CHECK(srv->bind("127.0.0.1", 0), "infrastructure: cannot bind a TCP port");
+	// descriptors are handed out lowest-free-first: a placeholder opened before the first bind and closed before the second
+	// gives the endpoint bound second the lower descriptor (as happens in a program that closes a file between two binds)
+	int placeholder = (tcp && ux && (h.fdorder & 1)) ? open("/dev/null", O_RDONLY) : -1;
+	for (int step = 0; step < 2; step++) {
+		bool do_unix = (step == 0) == ((h.fdorder & 2) != 0);
+		if (step == 1 && placeholder >= 0)
+			close(placeholder);
+		if (!do_unix && tcp)
+			VF_CHECK(srv->bind("127.0.0.1", 0), "infrastructure: cannot bind a TCP port");
+		if (do_unix && ux)
+			VF_CHECK(srv->bindPath(String(path.c_str())), "infrastructure: cannot bind unix path ", path);
+	}
 	int port = tcp ? srv->port() : 0;
-	if (ux)
-		VF_CHECK(srv->bindPath(String(path.c_str())), "infrastructure: cannot bind unix path ", path);
+	if (tcp)
+		VF_CHECK(port > 0, "infrastructure: no TCP port");
+	if (srv->nendpoints() == 2)
+		vf::stats().cls(srv->fd(1) < srv->fd(0) ? "two_endpoints.second_has_lower_descriptor" : "two_endpoints.ascending_descriptors");
 	g_jitter = h.jseed;
 	g_spin_ms = h.spin_ms;
 	srv->start(true);
@@ -499,6 +521,7 @@ static Hist parse_hist(const vf::Op& o)
 	h.jseed = (uint64_t)o.i(9);
 	h.spin_ms = (int)(o.i(10) < 0 ? 0 : o.i(10) > 300 ? 300 : o.i(10));
 	h.destroy_at_once = o.i(11) & 1;
+	h.fdorder = (int)(o.i(12, 0) & 3);
 	return h;
 }
 
@@ -522,7 +545,7 @@ void vf_search(const vf::Args& a)
 		                  auto& x = std::get<0>(t);
 		                  auto& y = std::get<1>(t);
 		                  vf::Case c;
-		                  c.add(vf::Op("hist", {std::get<0>(x), std::get<1>(x), std::get<2>(x), std::get<3>(x), std::get<0>(y), std::get<1>(y), std::get<2>(y), std::get<3>(y), std::get<4>(y), std::get<5>(y), std::get<2>(t).first, std::get<2>(t).first ? 1 : std::get<2>(t).second}));
+		                  c.add(vf::Op("hist", {std::get<0>(x), std::get<1>(x), std::get<2>(x), std::get<3>(x), std::get<0>(y), std::get<1>(y), std::get<2>(y), std::get<3>(y), std::get<4>(y), std::get<5>(y), std::get<2>(t).first, std::get<2>(t).first ? 1 : std::get<2>(t).second, (std::get<5>(y) / 7) % 4}));
 		                  return c;
 	                  });
 	vf::check_cases("history", a.n(12, 200), 100, g, [](const vf::Case& c) {
@@ -536,9 +559,9 @@ void vf_search(const vf::Args& a)
 		if (o.i(2) > 60)
 			vf::stats().cls("burst>60");
 		if (o.i(10) > 0)
-			vf::stats().cls("spin_delay_at_loop_stop+destroy_at_once");
+			vf::stats().cls("spin_delay_at_loop_stop_and_thread_entry+destroy_at_once");
 		else if (o.i(11) & 1)
 			vf::stats().cls("destroy_at_once");
-		vf::stats().sample("hist kind seq n_before n_inflight pattern early% stop_delay_us poke serve_delay_us jitter_seed spin_ms destroy_at_once: " + vf::serialize(c), 4);
+		vf::stats().sample("hist kind seq n_before n_inflight pattern early% stop_delay_us poke serve_delay_us jitter_seed spin_ms destroy_at_once fd_order: " + vf::serialize(c), 4);
 	});
 }
